@@ -140,6 +140,10 @@ func GenC05(seed uint64, tier string) *Plan {
 			a.Recursive = g.r.Chance(0.5)
 		case "Open":
 			a.Name = g.apiName(pickExisting("file"), ep)
+			if cfg.Store == "memfs" && g.r.Chance(0.15) {
+				// the backend's own data stream breaks part-way
+				st.Faults = []Fault{{Seam: "backend-stream", At: g.r.Intn(5000), Kind: "custom-error"}}
+			}
 		case "Create":
 			p := g.pickPath("missing")
 			if g.r.Chance(0.4) {
